@@ -765,7 +765,8 @@ func (self PathNode) marshal(p *thrift.BinaryProtocol, opts *Options) error {
 func guardPathNodeSlice(con *[]PathNode, l int) {
 	c := cap(*con)
 	if l >= c {
-		tmp := make([]PathNode, len(*con), l+DefaultNodeSliceCap)
+		// NOTICE: grow geometrically, a constant step copies O(n^2) nodes for n children
+		tmp := make([]PathNode, len(*con), l+l/2+DefaultNodeSliceCap)
 		copy(tmp, *con)
 		*con = tmp
 	}
